@@ -15,3 +15,4 @@ from . import lists  # noqa: E402,F401
 from . import maps  # noqa: E402,F401
 from . import algs  # noqa: E402,F401
 from . import files  # noqa: E402,F401
+from . import twins  # noqa: E402,F401
